@@ -239,6 +239,10 @@ structure Quirks where
   /-- `Outer/Inner_Shared_Do_Construct.match` catch `NoMatchError` and restore the reader
       before returning None (the pinned code does neither: "todo: restore reader") -/
   seqRestores : Bool := false
+  /-- the trailing name check: a named end statement after a start statement whose `get_name()`
+      is None raises `FortranSyntaxError` (after removing the block's table) instead of the
+      `AttributeError` of the pinned code -/
+  startNameNoneSyntax : Bool := false
   deriving Repr, DecidableEq, Inhabited
 
 structure Table where
@@ -723,6 +727,8 @@ inductive NameCheck where
   | ok
   /-- evaluating the check raises (`AttributeError`) -/
   | error
+  /-- the end statement is named, `start_stmt.get_name()` is None -/
+  | noStartName
   /-- the names differ -/
   | mismatch
   deriving DecidableEq, Repr
@@ -738,7 +744,7 @@ def finalNameCheck (tbl : Table) (cfg : Cfg) (startT : Option Tree) (rc : List T
       | none => .ok
       | some en =>
         match sinf.name with
-        | none => .error
+        | none => .noStartName
         | some sn =>
           if sn != en then
             (match eT with | .leaf .. => .mismatch | .node .. => .error)
@@ -777,6 +783,12 @@ def blockTail (env : Env) (cfg : Cfg) (startT : Option Tree) (tn : Option Name) 
     match finalNameCheck env.tbl cfg startT v.rc with
     | .ok => (.tuple v.rc.reverse, s3)
     | .error => (.raise .other, s3)
+    | .noStartName =>
+      if env.tbl.quirks.startNameNoneSyntax then
+        match condRemove (truthy tn) tn s3 with
+        | (false, s4) => (.raise .other, s4)
+        | (true, s4) => (.raise .syntax, s4)
+      else (.raise .other, s3)
     | .mismatch =>
       if env.tbl.quirks.nameMismatchSyntax then
         match condRemove (truthy tn && env.tbl.quirks.nameMismatchRemoves) tn s3 with
